@@ -21,6 +21,9 @@ def run_spec(spec: dict) -> list[dict]:
         np.random.rand(int(spec["scramble"]) % 13 + 1)
         random.random()
     cfg, rec = build(spec)
+    rec.look = spec.get("look")
+    if rec.look is not None:
+        return run_look(spec, cfg, rec)
     status = "ok"
     info = ""
     tree = None
@@ -49,6 +52,28 @@ def run_spec(spec: dict) -> list[dict]:
                        "spec": spec, "dump_event": lr["dump_event"]})
     out["loaded"] = loaded
     return out
+
+
+def run_look(spec: dict, cfg, rec) -> dict:
+    """C20: a run during which the tree is looked at only at the boundaries of the look schedule (and at the end)"""
+    from pyhms.tree import DemeTree
+    status, info = "ok", ""
+    tree = None
+    try:
+        tree = DemeTree(cfg)
+        rec.tree = tree
+        tree.run()
+        rec.emit_look(tree, kind="lookend")
+    except TooManyConsults as ex:
+        status, info = "stalled", str(ex)
+        if tree is not None:
+            rec.emit_look(tree, kind="lookend")
+    except Exception as ex:  # noqa: BLE001
+        status, info = "crash", "".join(traceback.format_exception(type(ex), ex, ex.__traceback__))[-1500:]
+    evs = rec.finish()
+    for i, e in enumerate(evs):
+        e["i"] = i + 1
+    return {"name": spec.get("name", ""), "status": status, "info": info, "events": evs, "spec": spec, "loaded": []}
 
 
 if __name__ == "__main__":
